@@ -1,5 +1,385 @@
-import StraxModel.Model.Basic
+import StraxModel.Lemmas.Contract
+/-
+  C12 — outputs that violate a plugin's declared contract are rejected, not stored.
+
+  One theorem per violation kind, each for ALL inputs of its class, over the model of the code as it
+  is now (`Model/Contract.lean`): D2 fixed (the constructor compares the declared dtype with the
+  dtype of the data), chunk results dtype-checked in `_fix_output`, label and dtype checked per
+  yielded chunk by the down-chunking plugin.  The `_old` theorems are `decide`-witnesses of what the
+  code did before each of these fixes.  Storage: `rejected_not_stored` is stated against the abstract
+  saver protocol of `Contract.process` (the crash-level statement is C04's); what is NOT guaranteed
+  there — the open finding F3 — is stated as `gap_in_target_stored_eager_counterexample`.
+-/
 namespace Strax.C12
-open Strax
+open Strax Strax.Contract
+
+/-! ### concrete witnesses used by the non-vacuity examples and the `_old` theorems -/
+
+def dtDeclared : RDtype := [⟨some "Start time", "time", "<i8"⟩, ⟨some "End time", "endtime", "<i8"⟩, ⟨some "Identity", "id", "<i8"⟩]
+/-- same names, `id` is int32 -/
+def dtWrong : RDtype := [⟨none, "time", "<i8"⟩, ⟨none, "endtime", "<i8"⟩, ⟨none, "id", "<i4"⟩]
+/-- the declared dtype without titles -/
+def dtNoTitles : RDtype := [⟨none, "time", "<i8"⟩, ⟨none, "endtime", "<i8"⟩, ⟨none, "id", "<i8"⟩]
+
+def pSingle : Plugin := { provides := ["pp"], dtype := dtDeclared, dtypes := [], kind := "things", kinds := [], runId := "r0", target := 1000 }
+def pMulti : Plugin :=
+  { provides := ["pp", "qq"], dtype := [], dtypes := [("pp", dtDeclared), ("qq", dtNoTitles)], kind := "",
+    kinds := [("pp", "things"), ("qq", "things")], runId := "r0", target := 1000 }
+
+def rowsIn : List Row := [⟨1, 3, 0⟩, ⟨6, 8, 1⟩]
+
+/-! ### 1. data of a different dtype, returned as a bare array -/
+
+/-- A bare array whose dtype differs (titles aside) from the declared one is refused with
+`PluginGaveWrongOutput`, whatever its rows, the time range and the run annotations. -/
+theorem wrong_dtype_bare_rejected (p : Plugin) (d : String) (dt decl : RDtype) (rows : List Row)
+    (se : Int × Int) (superrun subruns : Option Runs)
+    (hd : p.dtypeFor d = .ok decl) (hne : stripTitles dt ≠ stripTitles decl) :
+    fixOne p d (.leaf (.array dt rows)) (some se) superrun subruns = .error .pluginGaveWrongOutput := by
+  obtain ⟨a, b⟩ := se
+  simp [fixOne, fixOneG, hd, dictToRec, checkDtype_array_wrong p d dt decl rows hd hne,
+        bind, Except.bind, pure, Except.pure]
+
+/-- the same through `_fix_output` of a single-output plugin -/
+theorem wrong_dtype_bare_rejected_single (p : Plugin) (d : String) (rest : List String) (dt : RDtype) (rows : List Row)
+    (se : Int × Int) (superrun subruns : Option Runs)
+    (hp : p.provides = d :: rest) (hm : p.multi = false) (hne : stripTitles dt ≠ stripTitles p.dtype) :
+    fixOutput p (.leaf (.array dt rows)) (some se) superrun subruns = .error .pluginGaveWrongOutput := by
+  have hd : p.dtypeFor d = .ok p.dtype := by simp [Plugin.dtypeFor, hm]
+  have := wrong_dtype_bare_rejected p d dt p.dtype rows se superrun subruns hd hne
+  simp only [fixOne] at this
+  simp [fixOutput, fixOutputG, hm, hp, this, Except.map]
+
+/-- … and of a multi-output plugin: if the value filed under some provided data type has the
+wrong dtype, the whole result is refused (with the error of the first offending output) -/
+theorem wrong_dtype_bare_rejected_multi (p : Plugin) (d : String) (entries : List (String × Leaf))
+    (dt decl : RDtype) (rows : List Row) (se : Int × Int) (superrun subruns : Option Runs)
+    (hm : p.multi = true) (hin : d ∈ p.provides) (hl : entries.lookup d = some (.array dt rows))
+    (hd : p.dtypeFor d = .ok decl) (hne : stripTitles dt ≠ stripTitles decl) :
+    ∃ e, fixOutput p (.outputs entries) (some se) superrun subruns = .error e := by
+  simp only [fixOutput, fixOutputG, hm, Result.isDict]
+  simp only [Bool.not_true, Bool.false_eq_true, if_false, ite_true]
+  have hf : ∃ e, (fun d => do
+        let rd ← lookupOutput (.outputs entries) d
+        let c ← fixOneG true p d rd (some se) superrun subruns
+        pure (d, c)) d = .error e := by
+    refine ⟨.pluginGaveWrongOutput, ?_⟩
+    have := wrong_dtype_bare_rejected p d dt decl rows se superrun subruns hd hne
+    simp only [fixOne] at this
+    simp [lookupOutput, hl, this, bind, Except.bind]
+  obtain ⟨e, he⟩ := mapM_error_of_mem (fun d => do
+        let rd ← lookupOutput (.outputs entries) d
+        let c ← fixOneG true p d rd (some se) superrun subruns
+        pure (d, c)) p.provides d hin hf
+  exact ⟨e, by rw [he]; rfl⟩
+
+example : stripTitles dtWrong ≠ stripTitles dtDeclared := by decide
+example : pSingle.dtypeFor "pp" = .ok dtDeclared := by decide
+example : stripTitles dtNoTitles = stripTitles dtDeclared := by decide   -- titles do not matter
+
+/-! ### 2. data of a different dtype, wrapped in a chunk -/
+
+/-- The constructor itself: data whose dtype differs from the declared `dtype` argument is refused,
+whatever the other arguments (this is the D2 fix). -/
+theorem wrong_dtype_chunk_rejected (dataType kind : String) (runId : Option String) (declared dt : RDtype)
+    (start stop : Int) (rows : List Row) (subruns superrun : Option Runs) (target : Nat)
+    (hne : stripTitles declared ≠ stripTitles dt) :
+    chunkInit dataType kind runId declared start stop (.array dt rows) subruns superrun target
+      = .error .valueError :=
+  chunkInit_wrong_dtype dataType kind runId declared dt start stop rows subruns superrun target hne
+
+/-- `self.chunk(...)` always passes the declared dtype, so wrapping wrong data with the plugin's
+own helper fails inside `compute`. -/
+theorem wrong_dtype_chunk_rejected_helper (p : Plugin) (d k : String) (decl dt : RDtype) (start stop : Int) (rows : List Row)
+    (hk : p.kindFor d = .ok k) (hd : p.dtypeFor d = .ok decl) (hne : stripTitles decl ≠ stripTitles dt) :
+    p.chunk start stop (.array dt rows) (some d) = .error .valueError := by
+  simp [Plugin.chunk, hk, hd, chunkInit_wrong_dtype _ _ _ decl dt _ _ _ _ _ _ hne, bind, Except.bind, pure, Except.pure]
+
+/-- A chunk — however it was built, e.g. self-consistently with its own dtype — whose data has
+another dtype than the plugin declares is refused by `_fix_output`. -/
+theorem wrong_dtype_chunk_rejected_fix_output (p : Plugin) (d : String) (cc : CChunk) (decl : RDtype)
+    (range : Option (Int × Int)) (superrun subruns : Option Runs)
+    (hd : p.dtypeFor d = .ok decl) (hne : stripTitles cc.dataDtype ≠ stripTitles decl) :
+    fixOne p d (.leaf (.chunk cc)) range superrun subruns = .error .pluginGaveWrongOutput := by
+  simp [fixOne, fixOneG, checkDtype_array_wrong p d cc.dataDtype decl cc.c.rows hd hne, bind, Except.bind]
+
+/-- … and by the down-chunking plugin, for a chunk yielded on its own … -/
+theorem wrong_dtype_chunk_rejected_down (p : Plugin) (d : String) (rest : List String) (cc : CChunk)
+    (superrun subruns : Option Runs)
+    (hp : p.provides = d :: rest) (hm : p.multi = false) (hlabel : cc.c.dataType = d)
+    (hne : stripTitles cc.dataDtype ≠ stripTitles p.dtype) :
+    fixDownItem p (.leaf (.chunk cc)) superrun subruns = .error .pluginGaveWrongOutput := by
+  have hd : p.dtypeFor d = .ok p.dtype := by simp [Plugin.dtypeFor, hm]
+  simp [fixDownItem, fixDownItemG, hm, hp, downChecks, hlabel,
+        checkDtype_array_wrong p d cc.dataDtype p.dtype cc.c.rows hd hne, bind, Except.bind]
+
+/-- the constructor before the D2 fix accepted the very same call -/
+theorem wrong_dtype_chunk_accepted_old :
+    (chunkInitOld "pp" "things" (some "r0") dtDeclared 0 10 (.array dtWrong rowsIn) none none 1000).toBool = true
+    ∧ chunkInit "pp" "things" (some "r0") dtDeclared 0 10 (.array dtWrong rowsIn) none none 1000 = .error .valueError := by
+  decide +kernel
+
+/-- a self-consistent chunk of the wrong dtype (built with `dtype=data.dtype`) -/
+def selfBuilt : CChunk :=
+  ⟨dtWrong, dtWrong, ⟨"pp", "things", some "r0", 0, 10, rowsIn, none, [⟨"r0", 0, 10⟩], 1000⟩⟩
+
+example : chunkInit "pp" "things" (some "r0") dtWrong 0 10 (.array dtWrong rowsIn) none none 1000 = .ok selfBuilt := by decide +kernel
+
+/-- `_fix_output` before the chunk-dtype fix accepted it, the code as it is now refuses it -/
+theorem wrong_dtype_selfbuilt_chunk_accepted_old :
+    (fixOneG false pSingle "pp" (.leaf (.chunk selfBuilt)) (some (0, 10)) none none).toBool = true
+    ∧ fixOne pSingle "pp" (.leaf (.chunk selfBuilt)) (some (0, 10)) none none = .error .pluginGaveWrongOutput := by
+  decide +kernel
+
+/-! ### 3. rows outside the time range of the chunk that carries them -/
+
+/-- Within the property's scope — at most 500 rows, sorted by time — a chunk holding a row that
+starts before `start` or ends after `stop` cannot be constructed. -/
+theorem row_outside_chunk_rejected (dataType kind : String) (runId : Option String) (declared dt : RDtype)
+    (start stop : Int) (rows : List Row) (subruns superrun : Option Runs) (target : Nat)
+    (hlen : rows.length ≤ 500) (hsort : SortedByTime rows)
+    (hout : ∃ r ∈ rows, r.time < start ∨ r.endt > stop) :
+    chunkInit dataType kind runId declared start stop (.array dt rows) subruns superrun target
+      = .error .valueError := by
+  unfold chunkInit
+  simp only
+  split
+  · rfl
+  · rw [mkChunk_row_outside hlen hsort hout]; rfl
+
+/-- … hence a bare array with such a row is refused by `_fix_output` (here for an array of the
+right dtype: the error is the constructor's `ValueError`) -/
+theorem row_outside_bare_rejected (p : Plugin) (d k : String) (dt decl : RDtype) (rows : List Row)
+    (start stop : Int) (superrun subruns : Option Runs)
+    (hk : p.kindFor d = .ok k) (hd : p.dtypeFor d = .ok decl) (heq : stripTitles dt = stripTitles decl)
+    (hlen : rows.length ≤ 500) (hsort : SortedByTime rows)
+    (hout : ∃ r ∈ rows, r.time < start ∨ r.endt > stop) :
+    fixOne p d (.leaf (.array dt rows)) (some (start, stop)) superrun subruns = .error .valueError := by
+  have hc : p.chunk start stop (.array dt rows) (some d) = .error .valueError := by
+    simp [Plugin.chunk, hk, hd, bind, Except.bind, pure, Except.pure,
+          row_outside_chunk_rejected d k (some p.runId) decl dt start stop rows none none p.target hlen hsort hout]
+  simp [fixOne, fixOneG, hd, dictToRec, checkDtype_array_ok p d dt decl rows hd heq, hc, bind, Except.bind, pure, Except.pure]
+
+/-- conversely, what the constructor accepts (in scope) has every row inside the chunk -/
+theorem accepted_chunk_rows_inside (dataType kind : String) (runId : Option String) (declared : RDtype)
+    (start stop : Int) (data : DataArg) (subruns superrun : Option Runs) (target : Nat) (cc : CChunk)
+    (h : chunkInit dataType kind runId declared start stop data subruns superrun target = .ok cc)
+    (hlen : cc.c.rows.length ≤ 500) (hsort : SortedByTime cc.c.rows) :
+    ∀ r ∈ cc.c.rows, cc.c.start ≤ r.time ∧ r.endt ≤ cc.c.stop := by
+  cases data with
+  | notArray => simp [chunkInit] at h
+  | none =>
+    obtain ⟨c, hc, rfl⟩ := map_eq_ok.mp (by simpa [chunkInit] using h)
+    obtain ⟨_, hs, he, hr⟩ := mkChunk_fields hc
+    simp only at hlen hsort ⊢
+    rw [hr]; intro r hr'; simp at hr'
+  | array dt rows =>
+    obtain ⟨_, _, _, hc⟩ := chunkInit_ok_array h
+    obtain ⟨_, hs, he, hr⟩ := mkChunk_fields hc
+    rw [hr] at hlen hsort ⊢
+    rw [hs, he]
+    exact mkChunk_ok_rows_inside hc hlen hsort
+
+/-- 501 rows, sorted by time, the first one ending far beyond the chunk -/
+def rows501 : List Row := ⟨0, 5000, 0⟩ :: (List.range 500).map fun (i : Nat) => ⟨(i : Int) + 1, (i : Int) + 2, i + 1⟩
+
+/-- Why the bound of 500 rows is part of the property: the constructor inspects the ends of the
+LAST 500 rows only, so with 501 rows a first row ending late goes unnoticed. -/
+theorem row_outside_chunk_counterexample_501 :
+    rows501.length = 501 ∧ SortedByTime rows501 ∧ (∃ r ∈ rows501, r.endt > 1000) ∧
+    (chunkInit "pp" "things" (some "r0") dtDeclared 0 1000 (.array dtDeclared rows501) none none 1000).toBool = true := by
+  refine ⟨by simp [rows501], by decide +kernel, ⟨⟨0, 5000, 0⟩, by simp [rows501], by decide⟩, by decide +kernel⟩
+
+example : rowsIn.length ≤ 500 ∧ SortedByTime rowsIn ∧ ∃ r ∈ rowsIn, r.time < 2 ∨ r.endt > 10 := by
+  refine ⟨by decide, by decide, ⟨1, 3, 0⟩, by simp [rowsIn], by decide⟩
+
+/-! ### 4. a chunk labelled with another data type -/
+
+/-- A chunk carrying another `data_type` than the one it is delivered for never gets through
+`_fix_output` (the error is `ValueError` when the dtype was right, the dtype error otherwise). -/
+theorem wrong_label_rejected (p : Plugin) (d : String) (cc : CChunk) (range : Option (Int × Int))
+    (superrun subruns : Option Runs) (hl : cc.c.dataType ≠ d) :
+    ∃ e, fixOne p d (.leaf (.chunk cc)) range superrun subruns = .error e := by
+  simp only [fixOne, fixOneG]
+  cases hc : checkDtype p (.array cc.dataDtype cc.c.rows) (some d) with
+  | error e => exact ⟨e, by simp [bind, Except.bind]⟩
+  | ok _ => exact ⟨.valueError, by simp [hl, bind, Except.bind, pure, Except.pure, throw, throwThe, MonadExceptOf.throw]⟩
+
+theorem wrong_label_rejected_valueError (p : Plugin) (d : String) (cc : CChunk) (decl : RDtype) (range : Option (Int × Int))
+    (superrun subruns : Option Runs) (hl : cc.c.dataType ≠ d)
+    (hd : p.dtypeFor d = .ok decl) (heq : stripTitles cc.dataDtype = stripTitles decl) :
+    fixOne p d (.leaf (.chunk cc)) range superrun subruns = .error .valueError := by
+  simp [fixOne, fixOneG, checkDtype_array_ok p d cc.dataDtype decl cc.c.rows hd heq, hl, bind, Except.bind,
+        pure, Except.pure, throw, throwThe, MonadExceptOf.throw]
+
+/-- the down-chunking plugin refuses a yielded chunk with another label, too -/
+theorem wrong_label_rejected_down (p : Plugin) (d : String) (rest : List String) (cc : CChunk)
+    (superrun subruns : Option Runs)
+    (hp : p.provides = d :: rest) (hm : p.multi = false) (hl : cc.c.dataType ≠ d) :
+    fixDownItem p (.leaf (.chunk cc)) superrun subruns = .error .valueError := by
+  simp [fixDownItem, fixDownItemG, hm, hp, downChecks, hl, bind, Except.bind,
+        throw, throwThe, MonadExceptOf.throw]
+
+def mislabelled : CChunk :=
+  ⟨dtDeclared, dtDeclared, ⟨"zzz", "things", some "r0", 0, 10, rowsIn, none, [⟨"r0", 0, 10⟩], 1000⟩⟩
+
+/-- before the fix the down-chunking plugin handed a mislabelled chunk on -/
+theorem wrong_label_down_accepted_old :
+    (fixDownItemG false pSingle (.leaf (.chunk mislabelled)) none none).toBool = true
+    ∧ fixDownItem pSingle (.leaf (.chunk mislabelled)) none none = .error .valueError := by
+  decide +kernel
+
+/-! ### 5. a requested target whose chunks overlap or leave gaps -/
+
+/-- For the stream of an ordinary run (one run id, no superrun annotations): if some boundary
+between consecutive chunks is not a meeting point, the consumer gets a `ValueError`; the chunks
+handed over before it are a prefix of the stream without any break — the offending chunk is
+never delivered. -/
+theorem gap_or_overlap_in_target_rejected (rid : String) (cs : List Chunk)
+    (hp : plainStream rid cs = true) (hb : hasBreak cs = true) :
+    (targetStream cs).2 = some .valueError ∧ hasBreak (targetStream cs).1 = false ∧
+      (targetStream cs).1 <+: cs := by
+  cases cs with
+  | nil => simp [hasBreak] at hb
+  | cons c rest =>
+    simp only [plainStream, List.all_cons, Bool.and_eq_true, beq_iff_eq] at hp
+    obtain ⟨⟨hr, hs⟩, hrest⟩ := hp
+    have hs' : c.subruns = none := by simpa using hs
+    have h1 := contStep_first c rid hr hs'
+    have ih := targetStreamFrom_plain rid rest c.stop (by simpa [plainStream] using hrest)
+    simp only at ih
+    obtain ⟨i1, i2, i3, _⟩ := ih
+    rw [hasBreak_cons] at hb
+    simp only [targetStream, targetStreamFrom, h1]
+    refine ⟨by simpa [hb] using i1, ?_, (List.prefix_cons_inj c).mpr i3⟩
+    rw [hasBreak_cons]; exact i2
+
+/-- … and a stream without a break passes untouched -/
+theorem continuous_target_accepted (rid : String) (cs : List Chunk)
+    (hp : plainStream rid cs = true) (hb : hasBreak cs = false) :
+    targetStream cs = (cs, none) := by
+  cases cs with
+  | nil => simp [targetStream, targetStreamFrom]
+  | cons c rest =>
+    simp only [plainStream, List.all_cons, Bool.and_eq_true, beq_iff_eq] at hp
+    obtain ⟨⟨hr, hs⟩, hrest⟩ := hp
+    have hs' : c.subruns = none := by simpa using hs
+    have h1 := contStep_first c rid hr hs'
+    have ih := targetStreamFrom_plain rid rest c.stop (by simpa [plainStream] using hrest)
+    simp only at ih
+    obtain ⟨i1, _, _, i4⟩ := ih
+    rw [hasBreak_cons] at hb
+    simp only [targetStream, targetStreamFrom, h1]
+    have e1 := i4 hb
+    simp [hb] at i1
+    rw [Prod.ext_iff]; simp [e1, i1]
+
+def gapStream : List Chunk :=
+  [⟨"pp", "k", some "r0", 0, 10, [], none, [⟨"r0", 0, 10⟩], 1⟩, ⟨"pp", "k", some "r0", 11, 20, [], none, [⟨"r0", 11, 20⟩], 1⟩]
+example : plainStream "r0" gapStream = true ∧ hasBreak gapStream = true := by decide
+
+/-! ### 6. a non-dict result from a multi-output plugin -/
+
+theorem non_dict_multi_rejected (p : Plugin) (r : Result) (range : Option (Int × Int)) (superrun subruns : Option Runs)
+    (hm : p.multi = true) (hr : r.isDict = false) :
+    fixOutput p r range superrun subruns = .error .valueError := by
+  simp [fixOutput, fixOutputG, hm, hr]
+
+theorem non_dict_multi_rejected_down (p : Plugin) (l : Leaf) (superrun subruns : Option Runs)
+    (hm : p.multi = true) (hl : ∀ e, l ≠ .cols e) :
+    fixDownItem p (.leaf l) superrun subruns = .error .valueError := by
+  cases l with
+  | cols e => exact absurd rfl (hl e)
+  | _ => simp [fixDownItem, fixDownItemG, hm]
+
+/-- a missing output is refused as well (`KeyError`) -/
+theorem missing_output_rejected (p : Plugin) (d : String) (entries : List (String × Leaf))
+    (range : Option (Int × Int)) (superrun subruns : Option Runs)
+    (hm : p.multi = true) (hin : d ∈ p.provides) (hl : entries.lookup d = none) :
+    ∃ e, fixOutput p (.outputs entries) range superrun subruns = .error e := by
+  simp only [fixOutput, fixOutputG, hm, Result.isDict]
+  simp only [Bool.not_true, Bool.false_eq_true, if_false, ite_true]
+  have hf : ∃ e, (fun d => do
+        let rd ← lookupOutput (.outputs entries) d
+        let c ← fixOneG true p d rd range superrun subruns
+        pure (d, c)) d = .error e := ⟨.keyError, by simp [lookupOutput, hl, bind, Except.bind]⟩
+  obtain ⟨e, he⟩ := mapM_error_of_mem (fun d => do
+        let rd ← lookupOutput (.outputs entries) d
+        let c ← fixOneG true p d rd range superrun subruns
+        pure (d, c)) p.provides d hin hf
+  exact ⟨e, by rw [he]; rfl⟩
+
+example : pMulti.multi = true ∧ (Result.leaf (.array dtDeclared rowsIn)).isDict = false := by decide
+
+/-! ### 7. declarations without time information are refused at registration -/
+
+theorem missing_time_fields_rejected (d : String) (dt : RDtype) (kindIsDict : Bool) (h : hasTimeFields dt = false) :
+    fixDtype ⟨[d], .single dt, kindIsDict⟩ = .error .valueError := by
+  simp [fixDtype, h, List.forM, bind, Except.bind, throw, throwThe, MonadExceptOf.throw]
+
+example : hasTimeFields [⟨none, "time", "<i8"⟩, ⟨none, "length", "<i4"⟩] = false := by decide
+example : hasTimeFields dtDeclared = true := by decide
+
+/-! ### 8. rejected ⇒ not stored -/
+
+/-- The saver protocol of the single-thread processor, abstractly (`Contract.process`): if
+processing ends with an exception — an output was rejected, or the consumer-side check of a
+delivered chunk failed — every saver is closed with the exception recorded, so the data is not
+visible as valid; and a rejected output always ends processing with an exception.
+(That a saver closed with an exception is invisible to `is_stored`/loaders across crashes is C04.) -/
+theorem rejected_not_stored {σ α} (check : σ → α → Except Err σ) (st : σ) (outs : List (Except Err α)) (sv : Saver α) :
+    (∀ e, (process check st outs sv).2.2 = some e → (process check st outs sv).1.visible = false) ∧
+    ((∃ e, Except.error e ∈ outs) → ∃ e, (process check st outs sv).2.2 = some e) ∧
+    ((process check st outs sv).2.1.map Except.ok <+: outs) :=
+  ⟨fun e h => process_error_not_visible check outs st sv e h,
+   process_error_of_rejected check outs st sv,
+   process_delivered_ok check outs st sv⟩
+
+/-- composed with `_fix_output`: if any result of the plugin is refused, nothing of that data
+type stays visible and the caller gets an exception -/
+theorem rejected_output_not_stored (p : Plugin) (d : String) (results : List (Result × Option (Int × Int)))
+    (check : Unit → CChunk → Except Err Unit) (sv : Saver CChunk)
+    (hbad : ∃ r ∈ results, ∃ e, fixOne p d r.1 r.2 none none = .error e) :
+    let outs := results.map fun r => fixOne p d r.1 r.2 none none
+    (process check () outs sv).1.visible = false ∧ ∃ e, (process check () outs sv).2.2 = some e := by
+  intro outs
+  obtain ⟨r, hr, e, he⟩ := hbad
+  have hmem : Except.error e ∈ outs := by
+    simp only [outs, List.mem_map]
+    exact ⟨r, hr, he⟩
+  obtain ⟨e', he'⟩ := process_error_of_rejected check outs () sv ⟨e, hmem⟩
+  exact ⟨process_error_not_visible check outs () sv e' he', e', he'⟩
+
+/-- consumer-side continuity check on `[start, stop)` pairs, as `get_iter` applies it to the target -/
+def contCheck (last : Option Int) (c : Int × Int) : Except Err (Option Int) :=
+  match last with
+  | some e => if c.1 = e then .ok (some c.2) else .error .valueError
+  | none => .ok (some c.2)
+
+/-- what is guaranteed for a target with a gap under the single-thread order of events
+(saver first, then the consumer's check, any exception closes the savers with it) -/
+theorem gap_in_target_not_stored_single_thread :
+    (process contCheck none [.ok (0, 10), .ok (10, 20), .ok (21, 30), .ok (30, 40)] ({} : Saver (Int × Int))).1.visible = false := by
+  decide +kernel
+
+/-- an eager pipeline lets the saver run ahead of the consumer: it sees the whole stream and its
+regular end before the consumer has checked anything -/
+def processEager (check : σ → α → Except Err σ) (st : σ) (outs : List (Except Err α)) (sv : Saver α) :
+    Saver α × Option Err :=
+  match outs.find? (fun o => !o.toBool) with
+  | some (.error e) => (sv.closeExc, some e)
+  | _ =>
+    let good := outs.filterMap fun o => match o with | .ok a => some a | .error _ => none
+    let sv := (good.foldl Saver.save sv).close
+    (sv, (process check st outs ({} : Saver α)).2.2)
+
+/-- OPEN FINDING F3 (not guaranteed, `rejected_not_stored` holds for `process` only): with the
+saver ahead of the consumer, a target with a gap is stored as valid although the caller gets the
+`ValueError`.  Reproduced on the real threaded_mailbox processor (eager mode with a slow consumer;
+lazy mode through the D6 run-ahead). -/
+theorem gap_in_target_stored_eager_counterexample :
+    let r := processEager contCheck none [.ok (0, 10), .ok (10, 20), .ok (21, 30), .ok (30, 40)] ({} : Saver (Int × Int))
+    r.1.visible = true ∧ r.2 = some .valueError := by
+  decide +kernel
 
 end Strax.C12
